@@ -30,6 +30,7 @@ CONSTANTS Tags, MaxDepth,        \* build expressions: ExprsUpTo(Tags, MaxDepth)
           TdLevels,              \* where the two template-data keys are written: package level, package level over a DIFFERENT
                                  \* top-level default (the header reads the package-effective value: most specific wins), top level only
           SrcShapes,             \* one interface / two interfaces sharing the file / a method-less interface (no imports at all)
+          SrcConstraints,        \* build constraint of the source file that declares the interfaces (HeaderContract!SrcCons)
           Sizes,                 \* byte size class of the "many lines" boilerplates (just above 4 KiB, 64 KiB, 1 MiB)
           FsStates               \* directory entries next to the config file named like bare tags / templates / the boilerplate file
 
@@ -39,7 +40,19 @@ VARIABLES expr, shape, nl, fmt,  \* the case
 vars == <<expr, shape, nl, fmt, pc, lines>>
 
 ASSUME PrintT(<<"OBSDIMS", ToJson([templ |-> Templates, place |-> Placements, pathkind |-> PathKinds, spelling |-> Spellings,
-                                   tdlevel |-> TdLevels, fs |-> FsStates, srcshape |-> SrcShapes, size |-> Sizes])>>)
+                                   tdlevel |-> TdLevels, fs |-> FsStates, srcshape |-> SrcShapes, size |-> Sizes,
+                                   srccons |-> SrcConstraints])>>)
+
+\* the platforms the toolchain is asked on and the source-file constraints of the world, with the world facts the
+\* contract layer computes for them (is the source file part of the build on platform v)
+ASSUME SrcConstraints \subseteq SrcConsNames
+ASSUME \A s \in SrcConstraints : SrcVisibleToMockery(s)                                 \* mockery can see every source file on the host
+ASSUME \A s \in SrcConstraints \ {"none"} : \E v \in EnvNames : ~SrcIncluded(s, v)         \* every constraint excludes the source file somewhere
+ASSUME PrintT(<<"ENVS", ToJson([host |-> HostEnv,
+                                envs |-> [v \in EnvNames |-> [goos |-> Env(v).goos, goarch |-> Env(v).goarch, extra |-> Env(v).extra]],
+                                srccons |-> [s \in SrcConstraints |-> [expr |-> SrcCons(s).expr, style |-> SrcCons(s).style,
+                                                                      mockerytags |-> MockeryTags(s),
+                                                                      incl |-> [v \in EnvNames |-> SrcIncluded(s, v)]]]])>>)
 
 AllExprs == ExprsUpTo(Tags, MaxDepth)
 
@@ -81,13 +94,20 @@ Format ==
 Next == EmitMarker \/ EmitBoilerplate \/ EmitBuildTag \/ EmitPackage \/ Format
 Spec == Init /\ [][Next]_vars
 
+\* CONTRACT, per expression: platform -> assignment -> included (exported once per expression, not per case)
+ASSUME \A e \in AllExprs \cup {NoExpr} : PrintT(<<"EXPRENV", ToJson([expr |-> e, inclenv |-> TableEnv(e)])>>)
+\* ... and it does not depend on the platform: the expressions mention user tags only
+ASSUME \A e \in AllExprs \cup {NoExpr} : \A v \in EnvNames : TableEnv(e)[v] = Table(e)
+
 -----------------------------------------------------------------------------
 (* Impl => Contract: the header the templates produce, read with Go's rules, is what the property demands *)
 ImplGen      == GeneratedByRule(lines)
 ImplVerbatim == VerbatimByRule(lines, BoilerLines(shape))
 ImplIncl     == [n \in AsgNames |-> IncludedByRule(lines, n)]
 
+ImplInclEnv  == [v \in EnvNames |-> ImplIncl]       \* the modelled header mentions user tags only
 ImplConforms == pc = "done" => RuleDecides(lines) /\ Demands(expr, ImplGen, ImplVerbatim, ImplIncl)
+                                                  /\ DemandsEnv(expr, ImplGen, ImplVerbatim, ImplInclEnv)
 \* the section-by-section execution is the pure operator HeaderImpl!Produced (used by the histories of HeaderHist.tla)
 StepsArePure == pc = "done" => lines = Produced(expr, shape, nl, fmt)
 \* the marker is the first line until the formatter runs (which may lift the constraint above it)
